@@ -620,6 +620,15 @@ func execAlgCase(c *Sx, st *algStats) (out *Sx, viols []Violation) {
 				if cin && !ra.subsetOf(rb) {
 					report("containedin", fmt.Sprintf("ContainedIn true but numeric part not included: %s in %s", dd[i], dd[j]), opIdx)
 				}
+				// containment and difference are one notion: a set contained in another leaves nothing when the other is taken away
+				// (names included: the full port range of a protocol covers every name of that protocol)
+				if cin {
+					d := a.Copy()
+					d.Subtract(b)
+					if !d.IsEmpty() {
+						report("contained-but-difference-nonempty", fmt.Sprintf("ContainedIn(%s, %s)=true but the difference is %s", dd[i], dd[j], dumpCS(d).String()), opIdx)
+					}
+				}
 				// a set holding a named port is not contained in a set that lacks both that name and the full port range
 				if cin && !b.AllowAll {
 					for pi := 0; pi < 3; pi++ {
